@@ -65,6 +65,9 @@ pub struct SourceCfg {
     pub cycle: bool,
     /// The source delivers `data[..k]` and then fails with this kind (terminal).
     pub fail_at: Option<(usize, ErrorKind)>,
+    /// Scribble: after delivering n bytes the source fills the rest of the offered slice with this
+    /// byte (a `Read` may do that; the caller must not look at it). Makes over-reads observable.
+    pub poison: Option<u8>,
 }
 
 impl SourceCfg {
@@ -89,6 +92,7 @@ impl SourceCfg {
             steps: vec![],
             cycle: false,
             fail_at: None,
+            poison: None,
         }
     }
     pub fn bytewise() -> Self {
@@ -96,6 +100,7 @@ impl SourceCfg {
             steps: vec![Step::Deliver(1)],
             cycle: true,
             fail_at: None,
+            poison: None,
         }
     }
 }
@@ -277,6 +282,11 @@ impl Read for SimSource {
                     } else {
                         let n = want.min(offered).min(limit - st.pos);
                         buf[..n].copy_from_slice(&st.data[st.pos..st.pos + n]);
+                        if let Some(p) = st.cfg.poison {
+                            for b in &mut buf[n..] {
+                                *b = p;
+                            }
+                        }
                         st.pos += n;
                         st.c.ok_calls += 1;
                         if n < offered {
@@ -426,6 +436,7 @@ pub fn gen_plan(rng: &mut Rng, len: usize, cuts: &[usize], interrupts: u8) -> So
         steps,
         cycle,
         fail_at: None,
+        poison: None,
     }
 }
 
@@ -485,6 +496,7 @@ impl SourceCfg {
             steps,
             cycle,
             fail_at,
+            poison: None,
         })
     }
 }
